@@ -75,9 +75,9 @@ def run(chk):
     c05_total.run(chk, w)
 
 
-def kill_rules(chk, w):
+def kill_rules(chk, w, only_fields=None):
     """R05.1 / R05.2 (also the history clause R08.1 of C08)"""
-    fields = C.sentence_fields(w)
+    fields = [f_ for f_ in C.sentence_fields(w) if only_fields is None or f_ in only_fields]
     E = effects.Effects(w)
     reset = C.find_reset_fn(w)
     chk.fn(reset)
@@ -119,7 +119,7 @@ def kill_rules(chk, w):
                 chk.ob("R05.2", "%s:err-path-resets" % short, ok and not later,
                        "an Err return of %s is not preceded by the full reset %s (or writes to the sentence after it)"
                        % (fn, reset) if not (ok and not later) else "reset is the last write", site=C.site(b))
-    chk.floor("R05.1", "functions x fields", n_inst, 4 * 12)
+    chk.floor("R05.1", "functions x fields", n_inst, 4 * (12 if only_fields is None else len(only_fields)))
 
 
 def literal_rules(chk, w):
